@@ -391,6 +391,14 @@ func runSolver(ctx context.Context, sp solverSpec, file string, timeoutS, seed i
 	_ = cmd.Run()
 	secs = time.Since(t0).Seconds()
 	out = ob.String()
+	// drop solver warnings in front of the verdict
+	for strings.HasPrefix(out, "WARNING") || strings.HasPrefix(out, "(warning") {
+		if i := strings.Index(out, "\n"); i >= 0 {
+			out = out[i+1:]
+		} else {
+			break
+		}
+	}
 	first := strings.TrimSpace(strings.SplitN(out, "\n", 2)[0])
 	switch first {
 	case "unsat", "sat", "unknown":
